@@ -205,6 +205,15 @@ def out_of_table(srv, part, root, s):
                            {"input": [y, m, d], "scale": NAMES[s], "observed": fmtI(u), "expected": "nul instant",
                             "summary": "%s %04d-%02d-%02d lies outside the table but is mapped to Gregorian %s"
                             % (NAMES[s], y, m, d, fmtI(u))})
+    # months outside the table have no length
+    months = [(k // 12 + 1, k % 12 + 1) for k in list(range(lo_idx - 700, lo_idx)) + list(range(hi_idx, hi_idx + 700))]
+    ans = srv.batch(["ndim %d %d %d" % (s, y, m) for (y, m) in months])
+    for (y, m), a in zip(months, ans):
+        part.evaluations += 1
+        if int(a) != 0:
+            part.violation("%s/out-of-table/ndim-not-0" % NAMES[s],
+                           {"input": [y, m], "scale": NAMES[s], "observed": int(a), "expected": 0,
+                            "summary": "%s %04d-%02d lies outside the table but is said to have %s days" % (NAMES[s], y, m, a)})
     # Gregorian days just outside (the 1901..2099 sweep covers the rest)
     probes = []
     for mjd in list(range(first - 1000, first)) + list(range(end, end + 1000)):
